@@ -368,7 +368,7 @@ fn strat() -> impl Strategy<Value = KaCase> {
 }
 
 pub fn run(ctx: &RunCtx) -> Vec<PartOutcome> {
-    let n = ctx.tier.pick(3_000, 50_000);
+    let n = ctx.tier.pick(15_000, 800_000);
     vec![explore(ctx, "virtual_time", n, strat, check)]
 }
 
